@@ -507,6 +507,11 @@ def run_lines(case, ctx):
     res = [_lines_point(cs, ctx, b, model, k, wmin, wmax, bins) for k, cs in enumerate(sts)]
     # the same model asked for another spectral range and bin count: judged by the same oracle
     _lines_point(sts[-1], ctx, b, model, len(sts) - 1, wmin * 0.75, wmax * 1.5 + 10.0, bins + 3)
+    # ... and for windows that differ from the first in ONE respect only: other width with the same bin count, same window with
+    # another bin count (anything remembered under a partial key - bin count, lower limit - shows in one of them)
+    _lines_point(sts[-1], ctx, b, model, len(sts) - 1, wmin, wmax * 1.25 + 3.0, bins)
+    _lines_point(sts[0], ctx, b, model, 0, wmin * 0.8, wmax, bins)
+    _lines_point(sts[0], ctx, b, model, 0, wmin, wmax, bins + 5)
     history(ctx, b, model, sts, res[0][0], wmin, wmax, bins)
     ti = find(case, ln["el"], ln["q"] if kind == "exc" else ln["q"] + 1)
     donors = [i for i, s in enumerate(case["species"]) if i != ti and s["q"] < ELS[s["el"]]] if kind == "tcx" else []
@@ -616,6 +621,9 @@ def run_trp(case, ctx):
     wmin, wmax, bins = w["min"], w["min"] + w["width"], w["bins"]
     res = [_trp_point(cs, ctx, b, model, k, wmin, wmax, bins) for k, cs in enumerate(sts)]
     _trp_point(sts[-1], ctx, b, model, len(sts) - 1, wmin * 0.75, wmax * 1.5 + 10.0, bins + 3)      # other range, same oracle
+    _trp_point(sts[-1], ctx, b, model, len(sts) - 1, wmin, wmax * 1.25 + 3.0, bins)                 # one respect only: width
+    _trp_point(sts[0], ctx, b, model, 0, wmin * 0.8, wmax, bins)                                    # lower limit
+    _trp_point(sts[0], ctx, b, model, 0, wmin, wmax, bins + 5)                                      # bin count
     history(ctx, b, model, sts, res[0][0], wmin, wmax, bins)
     i0, i1 = find(case, t["el"], t["q"]), find(case, t["el"], t["q"] + 1)
     hyd = [i for i, s in enumerate(case["species"]) if s["el"] in HYD and s["q"] == 0]
@@ -768,6 +776,8 @@ def run_brems(case, ctx):
     wmin, wmax, bins = w["min"], w["min"] + w["width"], w["bins"]
     res = [_brems_point(cs, ctx, b, model, g, k, wmin, wmax, bins) for k, cs in enumerate(sts)]
     _brems_point(sts[-1], ctx, b, model, g, len(sts) - 1, wmin * 0.75, wmax * 1.5 + 10.0, bins + 3)   # other range, same oracle
+    _brems_point(sts[-1], ctx, b, model, g, len(sts) - 1, wmin, wmax * 1.25 + 3.0, bins)             # one respect only: width
+    _brems_point(sts[0], ctx, b, model, g, 0, wmin, wmax, bins + 5)                                  # bin count
     history(ctx, b, model, sts, res[0][0], wmin, wmax, bins)
     seq_labels(ctx, sts, [i for i, s in enumerate(case["species"]) if s["q"] > 0], False)
     ctx.nt(any(r[2] for r in res))
